@@ -109,6 +109,9 @@ func buildJournalImpl(feeds []any, lo, hi int64) *journal.Journal {
 
 var stopAlphabet = []string{"A", "B", "C", "D", "E", "F", "G01N", "M11N"}
 
+// characters that mean something to HTML, URLs, templates or shells but are ordinary in a CSV cell
+var oddTexts = []string{"A+B", "R&D", "it's", "<x>", "a b", "50%", "{{.}}", "a;b", "tab\there", "é/ü", "=1+1", "#", "\\"}
+
 func genStus(r *Rng, stops []string) []any {
 	out := []any{}
 	for _, s := range stops {
@@ -123,6 +126,9 @@ func genStus(r *Rng, stops []string) []any {
 		}
 		if r.P(1, 3) {
 			u["track"] = bstr(r.Pick([]string{"1", "2", "A1", ""}))
+			if r.P(1, 6) {
+				u["track"] = bstr(r.Pick(oddTexts))
+			}
 		}
 		out = append(out, u)
 	}
@@ -147,7 +153,7 @@ func genJournalCase(r *Rng, tier string, odd bool) map[string]any {
 	if tier == "thorough" {
 		nFeeds = r.Range(1, 14)
 	}
-	suffixes := []string{"_A..N", "_A..S01R", "_1..N03R", "_GS.N", "", "X"}
+	suffixes := []string{"_A..N", "_A..S01R", "_1..N03R", "_GS.N", "", "X", "_A+B", "_R&D..N", "_it's", "_<x>", "_a b"}
 	trips := make([]*jtrip, nTrips)
 	for i := range trips {
 		t := &jtrip{}
@@ -163,11 +169,14 @@ func genJournalCase(r *Rng, tier string, odd bool) map[string]any {
 			t.startDate = []int64{1700006400, 1700092800}[r.Intn(2)]
 			t.startTime = []int64{0, 3600, 90000}[r.Intn(3)]
 		}
-		t.route = r.Pick([]string{"A", "1", "GS", "M"})
+		t.route = r.Pick([]string{"A", "1", "GS", "M", "A+", "R&D", "<1>"})
 		t.dir = r.Intn(3)
 		n := r.Range(2, 6)
 		for k := 0; k < n; k++ {
 			t.stops = append(t.stops, r.Pick(stopAlphabet[:6]))
+			if r.P(1, 12) {
+				t.stops[len(t.stops)-1] = r.Pick(oddTexts)
+			}
 		}
 		t.assignFrom = r.Intn(nFeeds + 2)
 		if r.P(1, 6) {
